@@ -2655,6 +2655,7 @@ class PGPKey(Armorable, ParentRef, PGPObject):
                     return self.last
             return PktGrouper()
 
+        current = None
         while True:
             for group in iter(group for _, group in itertools.groupby(getpkt, key=pktgrouper()) if not _.endswith('Opaque')):
                 pkt = next(group)
@@ -2676,13 +2677,18 @@ class PGPKey(Armorable, ParentRef, PGPObject):
                 if isinstance(pgpobj, PGPKey):
                     if pgpobj.is_primary:
                         keys[(pgpobj.fingerprint.keyid, pgpobj.is_public)] = pgpobj
+                        # what follows belongs to this key, wherever its entry sits in `keys` (a key that occurs a second time
+                        # in the data keeps the position of its first occurrence there)
+                        current = pgpobj
 
                     else:
-                        keys[next(reversed(keys))] |= pgpobj
+                        current = current if current is not None else keys[next(reversed(keys))]
+                        current |= pgpobj
 
                 elif isinstance(pgpobj, PGPUID):
-                    # parent is likely the most recently parsed primary key
-                    keys[next(reversed(keys))] |= pgpobj
+                    # the parent is the most recently parsed primary key
+                    current = current if current is not None else keys[next(reversed(keys))]
+                    current |= pgpobj
 
                 else:  # pragma: no cover
                     break
